@@ -57,6 +57,9 @@ func (p *Proof) IsValid(public Public) bool {
 	if p == nil {
 		return false
 	}
+	if p.Commitment == nil || p.A == nil || p.N == nil || p.B == nil || p.Z == nil || p.U == nil {
+		return false
+	}
 	if p.A.IsIdentity() || p.N.IsIdentity() || p.B.IsIdentity() {
 		return false
 	}
